@@ -119,7 +119,7 @@ class SimPool:
     def _worker(self, wid, rx, tx, initializer, initargs):
         S = self.S
         ctl = _child.WorkerCtl(wid, tx, rx)
-        ctx = seams.Ctx(S.root, ctl, cpu_count=S.desc.get("cpu_count", 2), dir_rng=random.Random(H(S.desc.get("dirsalt", 0), "dir", wid)))
+        ctx = seams.Ctx(S.root, ctl, cpu_count=S.desc.get("cpu_count", 2), dir_rng=S.desc.get("dirsalt", 0))
         _child.prepare_process(S.desc, ctx, "w%d" % wid)
         global SIM
         SIM = None  # a worker has no scheduler of its own
